@@ -104,8 +104,11 @@ def abstract(spec, obs=None):
         a["elems"] = [[0 if cover else wclass(w), (u, v) in spec["ign"] or (u, v) in pct_ignored] for (u, v, w) in spec["edges"]]
     a["conserving"] = conserving(spec)
     k = spec["k"]
-    a["k"] = ([0, 1] if k is None or isinstance(k, str) else ([2, k] if isinstance(k, bool) else
-              ([0, k] if isinstance(k, int) else [1] + common.qtok(k))))
+    if spec["cls"] not in ci.HAS_K:
+        a["k"] = [0, 1]
+    else:
+        a["k"] = ([3] if k is None else ([4] if isinstance(k, str) else ([2, k] if isinstance(k, bool) else
+                  ([0, k] if isinstance(k, int) else [1] + common.qtok(k)))))
     a["has_superset"] = spec.get("superset") is not None and spec["cls"] in ci.HAS_SUPERSET
     edges = {(u, v) for (u, v, _) in spec["edges"]}
     def ingraph(it):
@@ -347,12 +350,9 @@ def check_case(ctx, stream, cls, idx, viols, spec, a, req, out, r):
             if obs == "SOLVED":
                 what += " — the model claims to be solved"
             ctx.report(what, replay, key=key, concrete=True)
-        if model_dom and not any(v in ("knone", "kstr") for v in viols):
+        if model_dom:
             ctx.report("generator / model mismatch: in_domain_%s is true on an input with violations %s" % (cls, viols), replay, concrete=False)
             return True
-    if any(v in ("knone", "kstr") for v in viols):
-        ctx.count("E2_only_k_kinds", "cases")      # k = None / a string: outside the abstract model, property evaluated only
-        return failed
     # (2) correspondence with the faithful model
     if agrees(model_out, obs):
         ctx.count("E3_validate", "agreements")
